@@ -534,3 +534,8 @@ M('C15', 'block column indices compared with the total width', 'matrix/__init__.
 M('C15', 'block row pointer start not checked', 'matrix/__init__.py', "            if not (block_rowptr[0] == 0 and\n                    all(block_rowptr[1:] >= block_rowptr[:-1]) and", "            if not (all(block_rowptr[1:] >= block_rowptr[:-1]) and", rule='R15.9')
 M('C15', 'block validation after the block was used', 'matrix/__init__.py', "            if not (all(block_colidx >= 0) and\n                    all(block_colidx < block_ncols)):\n                raise MatrixError('assemble received invalid column indices')\n            if len(block_values):\n                block_data.append((block_values, block_rowptr, block_colidx + col_offset))\n", "            if len(block_values):\n                block_data.append((block_values, block_rowptr, block_colidx + col_offset))\n            if not (all(block_colidx >= 0) and\n                    all(block_colidx < block_ncols)):\n                raise MatrixError('assemble received invalid column indices')\n", rule='R15.9')
 M('C15', 'benign: block checks as separate statements', 'matrix/__init__.py', "            if not (all(block_colidx >= 0) and\n                    all(block_colidx < block_ncols)):\n                raise MatrixError('assemble received invalid column indices')\n", "            if not all(block_colidx >= 0):\n                raise MatrixError('assemble received invalid column indices')\n            if not all(block_ncols > block_colidx):\n                raise MatrixError('assemble received invalid column indices')\n", expect='silent')
+M('C19', 'revert F23: first parse attempt returns without reaching the end', 'expression_v1.py', "            value = parser.parse_subexpression(True)\n            parser._consume_assert_equal('EOF', msg='Unexpected symbol at end of expression.')\n            return value.ast, arg_shapes", "            value = parser.parse_subexpression(True)\n            return value.ast, arg_shapes", rule='R19.6')
+M('C19', 'second parse attempt without end-of-expression assertion', 'expression_v1.py', "    value = parser.parse_subexpression(False)\n    parser._consume_assert_equal('EOF', msg='Unexpected symbol at end of expression.')\n", "    value = parser.parse_subexpression(False)\n", rule='R19.6')
+M('C19', 'compound expression without closing parenthesis assertion', 'expression_v1.py', "            value = self.parse_subexpression_cast(omitted_indices)\n            self._consume_assert_equal(')')\n            value = value.replace(ast=('group', value.ast))", "            value = self.parse_subexpression_cast(omitted_indices)\n            self._consume()\n            value = value.replace(ast=('group', value.ast))", rule='R19.6')
+M('C19', 'mean braces: closing brace not asserted', 'expression_v1.py', "            self._consume_assert_equal('}')\n", "            self._consume()\n", rule='R19.6')
+M('C19', 'benign: end assertion with default message', 'expression_v1.py', "            parser._consume_assert_equal('EOF', msg='Unexpected symbol at end of expression.')\n            return value.ast, arg_shapes", "            parser._consume_assert_equal('EOF')\n            return value.ast, arg_shapes", expect='silent')
